@@ -314,7 +314,7 @@ Proof.
     destruct (FS _ F01) as [I1 L1]. destruct (process_min_cnt s1 I1 L1) as [A B].
     destruct (process_min K s1) as [s2 did]. cbn [fst] in *.
     destruct did; (split; [eapply cnt_fsame; [|exact A]|eapply noloss_fsame; [|exact B]]; repeat split).
-  - apply FS. repeat split.
+  - apply FS. idle_cases; repeat split.
   - destruct (report_failures_cnt (cache s) s I) as (A & B & Cc & _).
     split; [eapply cnt_fsame; [|exact A]; repeat split|]. intro H. cbn. rewrite Cc. now apply L.
   - pose proof (refresh_fsame s) as F0. pose proof (all_empty_scan_fsame (cache (refresh K s)) (refresh K s) true) as F1.
